@@ -149,6 +149,50 @@ pub fn decimal_ns(text: &str, unit_ns: i128) -> i128 {
     w * unit_ns + carry
 }
 
+/// a fraction of `digits` decimals that lies just above (rounded up from) or just below (truncated from) the exact quotient
+/// n ns / unit: what a high-precision decimal library prints for a nanosecond count expressed in days, hours or minutes.
+/// Dropping digits before the (truncating) conversion loses a nanosecond on the "just above" ones.
+pub fn j_long_fraction(ui: usize, n: i128, digits: usize, up: bool, neg: bool, out: &mut Local) {
+    const U: [(&str, i128); 6] = [("d", 86_400_000_000_000), ("h", 3_600_000_000_000), ("min", 60_000_000_000), ("s", 1_000_000_000), ("ms", 1_000_000), ("us", 1_000)];
+    let (name, unit) = U[ui];
+    let whole = n / unit;
+    let mut r = n % unit;
+    let mut ds: Vec<u8> = Vec::with_capacity(digits);
+    for _ in 0..digits {
+        r *= 10;
+        ds.push((r / unit) as u8);
+        r %= unit;
+    }
+    let mut w = whole;
+    if up && r != 0 {
+        // round the last digit up, with carry
+        let mut i = digits;
+        loop {
+            if i == 0 {
+                w += 1;
+                break;
+            }
+            i -= 1;
+            if ds[i] == 9 {
+                ds[i] = 0;
+            } else {
+                ds[i] += 1;
+                break;
+            }
+        }
+    }
+    let frac: String = ds.iter().map(|d| (b'0' + d) as char).collect();
+    let num = format!("{w}.{frac}");
+    let text = format!("{}{num} {name}", if neg { "-" } else { "" });
+    let args = vec![ui.to_string(), n.to_string(), digits.to_string(), up.to_string(), neg.to_string()];
+    let want = decimal_ns(&num, unit) * if neg { -1 } else { 1 };
+    match guard(|| Duration::from_str(&text).map(alpha)) {
+        Ok(Ok(g)) if g == want => out.ok(1, digits > 18, ui as u64 * 4 + up as u64 * 2 + neg as u64),
+        Ok(g) => out.viol("c11.long_fraction", format!("wrong,{name},digits{}", if digits > 38 { ">38" } else if digits > 18 { "19-38" } else { "<=18" }), args, format!("{text:?} -> {want}"), format!("{g:?}")),
+        Err(p) => out.viol("c11.long_fraction", format!("panic:{}", p.class()), args, "no panic".into(), format!("{} {}", p.loc, p.msg)),
+    }
+}
+
 /// one spelling: "<value> <unit>" with an optional leading '-'
 pub fn j_spelling(si: usize, vi: usize, neg: bool, out: &mut Local) {
     let (sp, unit) = SPELLINGS[si];
@@ -281,6 +325,18 @@ pub fn run(rep: &mut Report) {
         rep.bound("interior_scan_points", nsc);
         sweep(rep, "c11.scan_text", nsc, |i, out| j_text(if i % 2 == 0 { lattice::scan_point(i / 2, 0, -years10k, years10k) } else { lattice::scan_magnitude(i / 2, 1, 0, 68).clamp(-years10k, years10k) }, out));
     }
+    // long fractions: nanosecond counts written as a decimal number of days / hours / minutes / ... with 9 to 80 decimals,
+    // rounded up or truncated (the value they denote is exact integer arithmetic on the text)
+    {
+        let dg: [usize; 12] = [9, 15, 18, 19, 24, 30, 38, 39, 40, 45, 60, 80];
+        let nn: u64 = if deep { 4000 } else { 300 };
+        sweep(rep, "c11.long_fraction", 6 * 12 * 4 * nn, |i, out| {
+            let ui = (i % 6) as usize;
+            let k = i / (6 * 12 * 4);
+            let n = if k % 3 == 0 { [1i128, 2, 59_999_999_999, 1_234_567_890_123, 86_399_999_999_999, 259_200_000_000_006][(k / 3 % 6) as usize] } else { lattice::scan_point(k, 0, 1, 400_000_000_000_000) };
+            j_long_fraction(ui, n, dg[((i / 6) % 12) as usize], (i / 72) % 2 == 0, (i / 144) % 2 == 1, out)
+        });
+    }
     let nv = VALUES.len() as u64;
     sweep(rep, "c11.spelling", 25 * nv * 2, |i, out| j_spelling((i / (2 * nv)) as usize, ((i / 2) % nv) as usize, i % 2 == 1, out));
     sweep(rep, "c11.combo", 127 * 3 * 2, |i, out| j_combo((i / 6) as u32 + 1, ((i / 2) % 3) as usize, i % 2 == 1, out));
@@ -294,6 +350,7 @@ pub fn run(rep: &mut Report) {
 pub fn replay(check: &str, a: &[String], out: &mut Local) -> bool {
     match check {
         "c11.text" | "c11.decompose" | "c11.subdivision" | "c11.display" | "c11.parse_back" | "c11.serde" | "c11.epoch_accessors" => j_text(p128(&a[0]), out),
+        "c11.long_fraction" => j_long_fraction(a[0].parse().unwrap(), p128(&a[1]), a[2].parse().unwrap(), a[3] == "true", a[4] == "true", out),
         "c11.spelling" => j_spelling(a[0].parse().unwrap(), a[1].parse().unwrap(), a[2] == "true", out),
         "c11.combo" => j_combo(a[0].parse().unwrap(), a[1].parse().unwrap(), a[2] == "true", out),
         "c11.offset" => j_offset(a[0].parse().unwrap(), a[1] == "true", a[2].parse().unwrap(), a[3].parse().unwrap(), a[4].parse().unwrap(), out),
